@@ -27,8 +27,14 @@ def elem_shape(shape, i):
 def probe_program(shape, probe, backend):
     """probe: ("get",) | ("length",) | ("elem", i|None, "const"|"rt"|"field")"""
     def body():
+        how_ = probe[2] if probe[0] == "elem" else ""
+        if how_ == "field_decoy_before":
+            abi_gen.decoy_instance(shape)
         sp = abi_gen.spec(shape)
         inst = sp.new_instance()
+        if how_ == "field_decoy_after":
+            # another user type with the same field names at other positions comes to life in between
+            abi_gen.decoy_instance(shape)
         steps = [inst.decode(pt.Txn.application_args[0])]
         if probe[0] == "get":
             g = inst.get()
@@ -39,7 +45,7 @@ def probe_program(shape, probe, backend):
             _k, i, how = probe
             es = elem_shape(shape, i if i is not None else 0)
             elem = abi_gen.spec(es).new_instance()
-            if how == "field":
+            if how.startswith("field"):
                 comp = getattr(inst, "f%d" % i)
             elif how == "rt":
                 comp = inst[pt.Btoi(pt.Txn.application_args[1])]
@@ -75,6 +81,9 @@ def probes_for(shape):
             out.append(("elem", i, "const"))
             if k == "ntuple":
                 out.append(("elem", i, "field"))
+                if len(shape) > 2:
+                    out.append(("elem", i, "field_decoy_before"))
+                    out.append(("elem", i, "field_decoy_after"))
         return out
     out.append(("length",))
     out.append(("elem", None, "rt"))
